@@ -16,6 +16,12 @@
    handler).  An [err] is the message *kind* (one constructor per print_error call site)
    and the *context reference* handed to print_error, as a position in the AST.
 
+   State of the code: after the repairs D8–D12a and D21 in /repo (known_findings.json, status
+   fixed).  The attribute-access check, the type lookup and the expression checks no longer
+   raise; the only remaining unguarded lookups are in check_if_input_parameter_matches
+   ([ipm_walk], [check_input_matches]) and in check_for_wrong_attribute_type_in_struct (always
+   called behind the unknown-attribute test).
+
    Definitions only; proofs are in CheckProofs*.v.
 
    What is abstracted (see docs/check_component.md):
